@@ -214,16 +214,23 @@ func (ev *EvalCtx) typed(v Val, t types.Type) Val {
 	return ev.clamp(v, t)
 }
 
+func clampName(t types.Type, sizes types.Sizes) string {
+	b, ok := t.Underlying().(*types.Basic)
+	if !ok || b.Info()&types.IsInteger == 0 || b.Info()&types.IsUntyped != 0 {
+		return ""
+	}
+	bits := sizes.Sizeof(t) * 8
+	if b.Info()&types.IsUnsigned != 0 {
+		return fmt.Sprintf("clamp_uint%d", bits)
+	}
+	return fmt.Sprintf("clamp_int%d", bits)
+}
+
 func (ev *EvalCtx) clamp(v Val, t types.Type) Val {
 	if v.T != nil {
 		if v.T.Sort == SInt {
-			if lo, hi, ok := intRange(t, ev.fc.eng.ti.sizes); ok {
-				if isAtom(v.T.S) {
-					return scalar(Ite(And(Le(BigLit(lo), v.T), Le(v.T, BigLit(hi))), v.T, BigLit(lo)))
-				}
-				*ev.qn++
-				x := fmt.Sprintf("c!l%d", *ev.qn)
-				return scalar(mk(SInt, fmt.Sprintf("(let ((%s %s)) (ite (and (<= %s %s) (<= %s %s)) %s %s))", x, v.T.S, BigLit(lo).S, x, x, BigLit(hi).S, x, BigLit(lo).S)))
+			if name := clampName(t, ev.fc.eng.ti.sizes); name != "" {
+				return scalar(app(SInt, name, v.T))
 			}
 		}
 		return v
@@ -521,9 +528,18 @@ func (ev *EvalCtx) evalIndex(e EIndex) TV {
 	switch u := x.T.Underlying().(type) {
 	case *types.Slice:
 		i := ev.evalInt(e.I)
-		w := fc.eng.ti.LayoutOf(u.Elem()).Width
+		lay := fc.eng.ti.LayoutOf(u.Elem())
+		w := lay.Width
 		p := MkPtr(SArr(x.V.T), Add(SOff(x.V.T), Mul(i, IntLit(w))))
-		return TV{V: ev.specLoad(p, u.Elem()), T: u.Elem(), Addr: p}
+		// element read through elt_S(row, off, index): no arithmetic inside quantifier triggers
+		leaves := make([]*Term, len(lay.Leaves))
+		for k, lf := range lay.Leaves {
+			h := fc.leafHeap(ev.cur, lf.Sort)
+			leaves[k] = app(lf.Sort, "elt_"+string(lf.Sort), Select(h, SArr(x.V.T)), SOff(x.V.T), Add(Mul(i, IntLit(w)), IntLit(lf.Off)))
+		}
+		pos := 0
+		v := fc.unflatten(u.Elem(), leaves, &pos)
+		return TV{V: ev.typed(v, u.Elem()), T: u.Elem(), Addr: p}
 	case *types.Map:
 		k := ev.eval(e.I)
 		return TV{V: ev.typed(fc.mapGet(ev.cur, x.V.T, u, k.V), u.Elem()), T: u.Elem()}
@@ -575,6 +591,14 @@ func (ev *EvalCtx) evalQuant(e EQuant) TV {
 		q = "exists"
 		full = And(append(ranges, body)...)
 	}
+	var names []string
+	for _, d := range decl {
+		names = append(names, d[1:strings.Index(d, " ")])
+	}
+	pats := patternsFor(full.S, names)
+	if pats != "" {
+		return TV{V: scalar(mk(SBool, fmt.Sprintf("(%s (%s) (! %s%s))", q, strings.Join(decl, " "), full.S, pats)))}
+	}
 	return TV{V: scalar(mk(SBool, fmt.Sprintf("(%s (%s) %s)", q, strings.Join(decl, " "), full.S)))}
 }
 
@@ -624,7 +648,18 @@ func (ev *EvalCtx) evalCall(e ECall) TV {
 		if e.Fn == "mathint" {
 			return TV{V: x.V}
 		}
-		return TV{V: x.V, T: ev.resolveType(e.Fn)}
+		// Go conversion semantics: wrap into the target type
+		tt := ev.resolveType(e.Fn)
+		if x.V.T == nil || x.V.T.Sort != SInt {
+			ev.fail("conversion %s() of non-integer", e.Fn)
+		}
+		lo, hi, _ := intRange(tt, fc.eng.ti.sizes)
+		size := new(big.Int).Add(new(big.Int).Sub(hi, lo), big.NewInt(1))
+		m := app(SInt, "mod", x.V.T, BigLit(size))
+		if lo.Sign() != 0 {
+			m = Ite(Gt(m, BigLit(hi)), Sub(m, BigLit(size)), m)
+		}
+		return TV{V: scalar(m), T: tt}
 	case "fresh":
 		// fresh(x): x's object was allocated during the call / function
 		argn(1)
@@ -654,6 +689,20 @@ func (ev *EvalCtx) evalCall(e ECall) TV {
 		tag := fc.eng.ti.TagOf(t)
 		fc.concreteTags[tag] = t
 		return TV{V: scalar(Eq(ITag(x.V.T), IntLit(int64(tag))))}
+	case "emptyiface":
+		// emptyiface("T"): the interface value holding the (unique) value of zero-size type T
+		argn(1)
+		sarg, ok := e.Args[0].(EStr)
+		if !ok {
+			ev.fail("emptyiface needs a type string")
+		}
+		t := ev.resolveType(sarg.V)
+		if fc.eng.ti.LayoutOf(t).Width != 0 {
+			ev.fail("emptyiface: %s is not a zero-size type", sarg.V)
+		}
+		tag := fc.eng.ti.TagOf(t)
+		fc.concreteTags[tag] = t
+		return TV{V: scalar(MkIface(IntLit(int64(tag)), IntLit(0)))}
 	case "unboxed":
 		// unboxed(x, "T"): payload of interface x viewed as T
 		argn(2)
@@ -713,6 +762,14 @@ func (ev *EvalCtx) evalCall(e ECall) TV {
 		x := ev.eval(e.Args[0])
 		o := refObj(x)
 		return TV{V: scalar(Lt(o, ev.cur.next))}
+	case "bytestr":
+		// bytestr(s, lo, n): the string made of bytes s[lo .. lo+n)
+		argn(3)
+		x := ev.eval(e.Args[0])
+		lo := ev.evalInt(e.Args[1])
+		n := ev.evalInt(e.Args[2])
+		h := fc.leafHeap(ev.cur, SInt)
+		return TV{V: scalar(app(SStr, "mkstr", Select(h, SArr(x.V.T)), Add(SOff(x.V.T), lo), n)), T: types.Typ[types.String]}
 	case "string":
 		argn(1)
 		x := ev.eval(e.Args[0])
@@ -729,6 +786,9 @@ func (ev *EvalCtx) evalCall(e ECall) TV {
 		}
 		if ev.depth > 40 {
 			ev.fail("pure function expansion too deep (recursion?) in %s", e.Fn)
+		}
+		if p.Kind == "abstract" {
+			return ev.evalAbstract(p, e)
 		}
 		sub := *ev
 		sub.depth++
@@ -757,6 +817,63 @@ func (ev *EvalCtx) evalCall(e ECall) TV {
 	}
 	ev.fail("unknown function %s in spec", e.Fn)
 	return TV{}
+}
+
+// evalAbstract applies an uninterpreted spec function.
+func (ev *EvalCtx) evalAbstract(p *Block, e ECall) TV {
+	fc := ev.fc
+	sub := *ev
+	if p.Pkg != "" {
+		if tp := fc.eng.typesPkg(p.Pkg); tp != nil {
+			sub.pkg = tp
+		}
+	}
+	var sorts []Sort
+	var args []*Term
+	for i, pp := range p.PureParams {
+		a := ev.eval(e.Args[i])
+		var s Sort
+		if pp.Type == "mathint" {
+			s = SInt
+		} else {
+			pt := sub.resolveType(pp.Type)
+			var ok bool
+			s, ok = leafSort(pt)
+			if !ok {
+				ev.fail("abstract function parameter %s must be scalar", pp.Name)
+			}
+			if a.V.T == nil && a.V.Fs == nil && a.T == nil {
+				a = TV{V: scalar(fc.zero(s))}
+			}
+		}
+		if a.V.T == nil || a.V.T.Sort != s {
+			ev.fail("abstract %s: argument %d has the wrong sort", p.Name, i)
+		}
+		sorts = append(sorts, s)
+		args = append(args, a.V.T)
+	}
+	var rs Sort = SBool
+	var rt types.Type
+	switch p.PureRet {
+	case "bool", "":
+		rs = SBool
+	case "mathint":
+		rs = SInt
+	default:
+		rt = sub.resolveType(p.PureRet)
+		s, ok := leafSort(rt)
+		if !ok {
+			ev.fail("abstract function %s must return a scalar", p.Name)
+		}
+		rs = s
+	}
+	name := "abs_" + sanitize(p.Name)
+	fc.sc.DeclFun(name, sorts, rs)
+	r := app(rs, name, args...)
+	if rt != nil {
+		return TV{V: ev.typed(scalar(r), rt), T: rt}
+	}
+	return TV{V: scalar(r)}
 }
 
 func refObj(x TV) *Term {
